@@ -47,26 +47,32 @@ Definition side_work_ok (b : block) (s : commit) : bool :=
   let d23 := b_diff b * 2 / 3 in
   negb (d23 =? 0) && (cm_pow s <=? max128 / d23).
 
+(* one boolean per clause of the property; [p] is the parent *)
+Definition wf_pow (b : block) : bool :=
+  is_secured cfg (b_height b) || (negb (b_diff b =? 0) && (b_pow b <=? max128 / b_diff b)).
+Definition wf_diff (n : node) (p b : block) : bool := res_is (get_next_difficulty cfg n p) (fun d => b_diff b =? d).
+Definition wf_height (p b : block) : bool := b_height b =? b_height p + 1.
+Definition wf_time (p b : block) (now : N) : bool := (b_ts p <=? b_ts b) && (b_ts b <=? now + future_time_limit cfg * 1000).
+Definition wf_cd (p b : block) : bool := res_is (contribution b) (fun c => b_cd b =? b_cd p + c).
+Definition wf_version (b : block) : bool := b_version b =? (if hf_v3 cfg <=? b_height b then 1 else 0).
+Definition wf_anc (p b : block) : bool := hashes_eqb (b_anc b) (real_ancestors p).
+Definition wf_chains (b : block) : bool := chains_ok cfg (b_chains b).
+Definition wf_size (b : block) : bool := tx_sizes b <=? max_block_size cfg.
+Definition wf_nsides (b : block) : bool := N.of_nat (length (b_sides b)) <=? max_side_blocks cfg.
+Definition wf_distinct (b : block) : bool := distinct_commits (b_sides b).
+Definition wf_unref (n : node) (b : block) : bool := forallb (fun s => negb (side_referenced n b s)) (b_sides b).
+Definition wf_shared (b : block) : bool := forallb (shares_ancestor b) (b_sides b).
+Definition wf_sidework (b : block) : bool := is_secured cfg (b_height b) || forallb (side_work_ok b) (b_sides b).
+
 (* codes = clause of the property that fails; 0 = well formed *)
 Definition wellformed (n : node) (b : block) (now : N) : N :=
   match get_block n (prev_hash b) with
   | None => 20                                                  (* parent unknown *)
   | Some p =>
       first_fail [
-        (1, is_secured cfg (b_height b) || (negb (b_diff b =? 0) && (b_pow b <=? max128 / b_diff b)));
-        (2, res_is (get_next_difficulty cfg n p) (fun d => b_diff b =? d));
-        (3, b_height b =? b_height p + 1);
-        (4, (b_ts p <=? b_ts b) && (b_ts b <=? now + future_time_limit cfg * 1000));
-        (5, res_is (contribution b) (fun c => b_cd b =? b_cd p + c));
-        (6, b_version b =? (if hf_v3 cfg <=? b_height b then 1 else 0));
-        (7, hashes_eqb (b_anc b) (real_ancestors p));
-        (8, chains_ok cfg (b_chains b));
-        (9, tx_sizes b <=? max_block_size cfg);
-        (10, N.of_nat (length (b_sides b)) <=? max_side_blocks cfg);
-        (11, distinct_commits (b_sides b));
-        (12, forallb (fun s => negb (side_referenced n b s)) (b_sides b));
-        (13, forallb (shares_ancestor b) (b_sides b));
-        (14, is_secured cfg (b_height b) || forallb (side_work_ok b) (b_sides b))]
+        (1, wf_pow b); (2, wf_diff n p b); (3, wf_height p b); (4, wf_time p b now); (5, wf_cd p b);
+        (6, wf_version b); (7, wf_anc p b); (8, wf_chains b); (9, wf_size b); (10, wf_nsides b);
+        (11, wf_distinct b); (12, wf_unref n b); (13, wf_shared b); (14, wf_sidework b)]
   end.
 
 End WellFormed.
